@@ -293,6 +293,16 @@ def listedTris (g : Grid α) (c : Cav) : List Tri := c.triList.filterMap fun cel
 /-- `ledgerOk` on the cells the cavity lists -/
 def ledgerOkAt (g : Grid α) (c : Cav) : Bool := ledgerOk c (listedTets g c) (listedTris g c)
 
+/-- three distinct nodes -/
+def Face.nondeg (f : Face) : Bool := f.n0 != f.n1 && f.n1 != f.n2 && f.n2 != f.n0
+
+/-- the certificate the run-level driver evaluates on every `cavity_replace begin` record (and the function-level
+    driver on request): listed cells live, live faces non-degenerate, ledger equation.  With it an accepted
+    `ref_cavity_replace` is a conforming step (`certified_step`). -/
+def certOk (g : Grid α) (c : Cav) : Bool :=
+  c.tetList.all (fun cell => (g.tets.get? cell).isSome) && c.triList.all (fun cell => (g.tris.get? cell).isSome) &&
+  c.validFaces.all Face.nondeg && ledgerOkAt g c
+
 /-! ### the enlarge loops -/
 
 /-- result of a modelled C function that contains a `while (keep_growing)` loop -/
